@@ -711,6 +711,15 @@ func genPrio(engine, prop string, r *simrt.SplitMix) *PrioSc {
 
 		nInit := len(sc.Inputs)
 
+		if r.Intn(5) == 0 {
+			// v1 accepts an empty Inputs map: everything is registered through AddInput
+			for i := range sc.Inputs {
+				sc.Inputs[i].Late = true
+			}
+
+			nInit = 0
+		}
+
 		extra := between(r, 1, 4*scale)
 		for k := 0; k < extra; k++ {
 			var p uint
@@ -1057,6 +1066,20 @@ func buildPrio(sc *PrioSc) (simrt.Config, func()) {
 		ctx, cancel := context.WithCancel(context.Background())
 		h.cancel = cancel
 
+		// without a cancel in the script the caller may just as well pass no context
+		var optCtx context.Context = ctx
+
+		hasCancel := false
+		for _, a := range sc.Ctl {
+			if a.Kind == "cancel" {
+				hasCancel = true
+			}
+		}
+
+		if !hasCancel && sc.H%2 == 0 {
+			optCtx = nil
+		}
+
 		handlerFor := func(ordinal int64) PHandler { return sc.Handlers[int(ordinal)%len(sc.Handlers)] }
 		resumeShared := make(chan struct{}, 4096)
 
@@ -1148,7 +1171,7 @@ func buildPrio(sc *PrioSc) (simrt.Config, func()) {
 			simrt.NameSend(outV1, "output")
 			simrt.NameRecv(fb, "feedback")
 
-			dsc, err := prio1.New(prio1.Opts[int]{Ctx: ctx, Divider: divV1, Feedback: fb, HandlersQuantity: uint(sc.H), Inputs: inputs, Output: outV1})
+			dsc, err := prio1.New(prio1.Opts[int]{Ctx: optCtx, Divider: divV1, Feedback: fb, HandlersQuantity: uint(sc.H), Inputs: inputs, Output: outV1})
 			if err != nil {
 				newErr(err)
 				return
@@ -1160,7 +1183,7 @@ func buildPrio(sc *PrioSc) (simrt.Config, func()) {
 			h.remove = dsc.RemoveInput
 			h.errCh = dsc.Err()
 		case "simple1":
-			dsc, err := prio1.NewSimple(prio1.SimpleOpts[int]{Ctx: ctx, Divider: divV1, Handle: handle, HandlersQuantity: uint(sc.H), Inputs: inputs})
+			dsc, err := prio1.NewSimple(prio1.SimpleOpts[int]{Ctx: optCtx, Divider: divV1, Handle: handle, HandlersQuantity: uint(sc.H), Inputs: inputs})
 			if err != nil {
 				newErr(err)
 				return
